@@ -78,6 +78,10 @@ def instances(seed, n):
                         inst["builder_flags"] = fl
                     out.append(inst)
                     k += 1
+    # start states that are only ever TARGETS of rules (never a prerequisite), inclusive and exclusive
+    out.append(dict(id="lex-fixed-target-only", eff=DEFAULT_EFF,
+                    l="%s MODE\n%x QUIET\n%%\non <+MODE>'ON'\noff <-MODE>'OFF'\nq <QUIET>'Q'\n[a-p] 'A'\n[ ]+ ;\n",
+                    inputs=["a on b off a", "on on off off a", "a q a", "on q", "off a"]))
     out.append(dict(id="lex-fixed-ties", eff=DEFAULT_EFF, l="%%\nif 'IF'\n[a-z]+ 'ID'\n[a-z]+ 'ID2'\ni 'I'\n[ ]+ ;\n",
                     inputs=["if", "ifx", "i", "x if i", "if if"], map={"IF": 5, "ID": 3, "I": 1, "NOPE": 9}))
     return out
